@@ -87,8 +87,8 @@ func scenarios(tier string) []svc.Scenario {
 		{Name: "converter-pair-fails-once", Converter: true, Program: []string{"import:P1", "addtag:tag/p=cport:1", "converters:tag/p=convflaky,convflaky2", "import:P3"}},
 		// a tag over a closed id range that imports fill up and pass
 		{Name: "bounded-id-range-tag", Program: []string{"import:P1", "addtag:service/r=id:0:3", "import:P2", "import:P3"}},
-		// a client that has opened the event stream and does not read it while a hundred events are emitted
-		{Name: "stalled-listener", Program: []string{"import:P1", "addtag:tag/p=cport:1", "listen.stall:l1", "storm:tag/p=100", "import:P2", "listen.close:l1"}},
+		// a client that has opened the event stream and does not read it while 120 events are emitted
+		{Name: "stalled-listener", Program: []string{"import:P1", "addtag:tag/p=cport:1", "listen.stall:l1", "storm:tag/x=60", "import:P2", "listen.close:l1"}},
 		{Name: "two-tags", Program: []string{"addtag:tag/p=cport:1", "addtag:tag/d=cdata:foo3", "import:P1", "import:P3"}},
 	}
 	if tier == "thorough" {
